@@ -150,7 +150,8 @@ void cpputest_malloc_set_out_of_memory()
 void cpputest_malloc_set_not_out_of_memory()
 {
     malloc_out_of_memory_counter = NO_COUNTDOWN;
-    setCurrentMallocAllocator(originalAllocator);
+    if (originalAllocator != NULLPTR)
+        setCurrentMallocAllocator(originalAllocator);
     originalAllocator = NULLPTR;
 }
 
